@@ -394,3 +394,636 @@ Section FollowChangesGeneric.
       + constructor; [|constructor]. simpl. lia.
   Qed.
 End FollowChangesGeneric.
+
+(* ------------------------------------------------------------------------------------------ *)
+(* token codec interface *)
+
+Lemma deserialize_serialize u ty : u <> [] -> mem c_pipe u = false ->
+  deserialize (u ++ c_pipe :: ty) = Some (u, ty).
+Proof.
+  intros Hne Hm. unfold deserialize. rewrite (cut_app _ _ _ Hm).
+  destruct u; [contradiction|reflexivity].
+Qed.
+
+Lemma serialize_some u ty : u <> [] -> serialize u ty = Some (u ++ c_pipe :: ty).
+Proof. destruct u; [contradiction|reflexivity]. Qed.
+
+Lemma page_size_opt_pos ps : (0 < N.to_nat (page_size_opt ps))%nat.
+Proof.
+  unfold page_size_opt, default_page_size. destruct (0 <? ps)%Z eqn:E.
+  - apply Z.ltb_lt in E. lia.
+  - lia.
+Qed.
+
+(* ------------------------------------------------------------------------------------------ *)
+(* (1) Read on the memory backend: offset tokens *)
+
+Definition int64_fits (len : nat) (size : N) : bool :=
+  (Z.of_nat len + Z.of_N size <? 9223372036854775808)%Z.
+
+Lemma parse_from_itoa k : (Z.of_nat k < 9223372036854775808)%Z ->
+  parse_from (itoa (Z.of_nat k)) = Some (Z.of_nat k).
+Proof.
+  intro H. unfold parse_from. destruct (itoa_nat_shape k) as (c & r & E & _). rewrite E, <- E.
+  apply atoi_itoa_nat. exact H.
+Qed.
+
+Lemma page_offset_at {A} (l : list A) (size : N) k from :
+  parse_from from = Some (Z.of_nat k) -> (k <= length l)%nat -> size <> 0 ->
+  int64_fits (length l) size = true ->
+  page_offset l size from =
+    if (k + N.to_nat size <? length l)%nat
+    then Page (firstn (N.to_nat size) (skipn k l)) (itoa (Z.of_nat (k + N.to_nat size)))
+    else Page (skipn k l) [].
+Proof.
+  intros Hp Hk Hs Hfit. unfold int64_fits in Hfit. apply Z.ltb_lt in Hfit.
+  unfold page_offset. rewrite Hp.
+  assert (E1 : (Z.of_nat k <=? Z.of_nat (length l))%Z = true) by (apply Z.leb_le; lia).
+  assert (E2 : (Z.of_nat k <? 0)%Z = false) by (apply Z.ltb_ge; lia).
+  rewrite E1, E2. cbn [andb]. rewrite Nat2Z.id, skipn_length.
+  apply N.eqb_neq in Hs. rewrite Hs. cbn [negb andb].
+  destruct (k + N.to_nat size <? length l)%nat eqn:E.
+  - apply Nat.ltb_lt in E.
+    assert (E3 : (N.to_nat size <? length l - k)%nat = true) by (apply Nat.ltb_lt; lia).
+    rewrite E3. f_equal. f_equal. rewrite wrap64_small by lia. lia.
+  - apply Nat.ltb_ge in E.
+    assert (E3 : (N.to_nat size <? length l - k)%nat = false) by (apply Nat.ltb_ge; lia).
+    rewrite E3. reflexivity.
+Qed.
+
+Definition tk_offset (suffix : bytes) (k : nat) : bytes :=
+  match k with O => [] | _ => itoa (Z.of_nat k) ++ suffix end.
+
+Lemma tk_offset_nonempty suffix k : (0 < k)%nat -> tk_offset suffix k <> [].
+Proof.
+  intro H. destruct k; [lia|]. unfold tk_offset.
+  destruct (itoa_nat_shape (S k)) as (c & r & E & _). rewrite E. discriminate.
+Qed.
+
+Lemma read_cmd_offset_token {A} (st : N -> bytes -> outcome A) ps k :
+  (0 < k)%nat ->
+  read_cmd st ps (tk_offset [c_pipe] k) =
+    match st (page_size_opt ps) (itoa (Z.of_nat k)) with
+    | Page items [] => Page items []
+    | Page items c => match serialize c [] with Some t => Page items t | None => Rejected EInternal end
+    | o => o
+    end.
+Proof.
+  intro Hk. destruct k; [lia|]. unfold tk_offset, read_cmd.
+  destruct (itoa_nat_shape (S k)) as (c & r & E & Hd).
+  rewrite deserialize_serialize.
+  - rewrite E. reflexivity.
+  - rewrite E. discriminate.
+  - rewrite E. apply digits_no_pipe. exact Hd.
+Qed.
+
+Lemma read_mem_step {A} (l : list A) ps k :
+  int64_fits (length l) (page_size_opt ps) = true -> (k <= length l)%nat ->
+  read_mem l ps (tk_offset [c_pipe] k) =
+    if (k + N.to_nat (page_size_opt ps) <? length l)%nat
+    then Page (firstn (N.to_nat (page_size_opt ps)) (skipn k l))
+              (tk_offset [c_pipe] (k + N.to_nat (page_size_opt ps)))
+    else Page (skipn k l) [].
+Proof.
+  intros Hfit Hk. pose proof (page_size_opt_pos ps) as Hpos.
+  assert (Hne : page_size_opt ps <> 0) by lia.
+  assert (Hlt : (Z.of_nat k < 9223372036854775808)%Z).
+  { unfold int64_fits in Hfit. apply Z.ltb_lt in Hfit. lia. }
+  unfold read_mem.
+  assert (Hst : forall from, parse_from from = Some (Z.of_nat k) ->
+            match page_offset l (page_size_opt ps) from with
+            | Page items [] => Page items []
+            | Page items c => match serialize c [] with Some t => Page items t | None => Rejected EInternal end
+            | o => o
+            end =
+            if (k + N.to_nat (page_size_opt ps) <? length l)%nat
+            then Page (firstn (N.to_nat (page_size_opt ps)) (skipn k l))
+                      (tk_offset [c_pipe] (k + N.to_nat (page_size_opt ps)))
+            else Page (skipn k l) []).
+  { intros from Hp. rewrite (page_offset_at l _ k from Hp Hk Hne Hfit).
+    destruct (k + N.to_nat (page_size_opt ps) <? length l)%nat; [|reflexivity].
+    destruct (itoa_nat_shape (k + N.to_nat (page_size_opt ps))) as (c & r & E & _).
+    rewrite E. cbn [serialize]. unfold tk_offset.
+    destruct (k + N.to_nat (page_size_opt ps))%nat eqn:En; [lia|]. rewrite E. reflexivity. }
+  destruct k as [|k].
+  - cbn [tk_offset]. unfold read_cmd. apply Hst. reflexivity.
+  - rewrite read_cmd_offset_token by lia. apply Hst. apply parse_from_itoa. exact Hlt.
+Qed.
+
+Theorem paging_exact_read_mem {A} (l : list A) ps :
+  int64_fits (length l) (page_size_opt ps) = true ->
+  exists pages, follow (S (length l)) (read_mem l ps) [] = (pages, EndMarker)
+                /\ pages_items pages = l
+                /\ Forall (fun p => (length (fst p) <= N.to_nat (page_size_opt ps))%nat) pages.
+Proof.
+  intro Hfit.
+  destruct (follow_generic l (N.to_nat (page_size_opt ps)) (read_mem l ps) (tk_offset [c_pipe])
+              (page_size_opt_pos ps) (tk_offset_nonempty [c_pipe])) with (fuel := S (length l)) (k := O)
+    as (pages & Hf & Hi & Hall).
+  - intros k Hk. apply read_mem_step; [exact Hfit|lia].
+  - right. reflexivity.
+  - lia.
+  - exists pages. split; [exact Hf|]. split; [exact Hi|exact Hall].
+Qed.
+
+(* ------------------------------------------------------------------------------------------ *)
+(* (2) keyset pages (sqlite Read, ListStores, ReadAuthorizationModels) *)
+
+Definition keyat {A} (t : list (bytes * A)) (k : nat) : bytes :=
+  match nth_error t k with Some r => fst r | None => [] end.
+
+Lemma nth_error_skipn {A} (l : list A) : forall k i, nth_error (skipn k l) i = nth_error l (k + i).
+Proof.
+  induction l as [|x l IH]; intros k i.
+  - rewrite skipn_nil. destruct i; destruct k; reflexivity.
+  - destruct k as [|k]; [reflexivity|]. simpl. apply IH.
+Qed.
+
+Lemma nth_error_firstn {A} (l : list A) : forall n i, (i < n)%nat -> nth_error (firstn n l) i = nth_error l i.
+Proof.
+  induction l as [|x l IH]; intros n i H.
+  - rewrite firstn_nil. reflexivity.
+  - destruct n as [|n]; [lia|]. destruct i as [|i]; [reflexivity|]. simpl. apply IH. lia.
+Qed.
+
+Lemma keyset_tail {A} (m : list (bytes * A)) (size : N) : size <> 0 ->
+  let got := if size =? 0 then m else firstn (S (N.to_nat size)) m in
+  Page (map snd (firstn (N.to_nat size) got))
+       (match nth_error got (N.to_nat size) with Some r => fst r | None => [] end)
+  = if (N.to_nat size <? length m)%nat
+    then Page (map snd (firstn (N.to_nat size) m)) (keyat m (N.to_nat size))
+    else Page (map snd m) [].
+Proof.
+  intro Hs. apply N.eqb_neq in Hs. rewrite Hs. cbv zeta.
+  rewrite firstn_firstn, Nat.min_l by lia. rewrite nth_error_firstn by lia.
+  destruct (N.to_nat size <? length m)%nat eqn:E.
+  - reflexivity.
+  - apply Nat.ltb_ge in E. rewrite firstn_all2 by exact E.
+    assert (Hn : nth_error m (N.to_nat size) = None) by (apply nth_error_None; exact E).
+    rewrite Hn. reflexivity.
+Qed.
+
+Definition keys_nonempty {A} (rows : list (bytes * A)) : bool := forallb nonemptyb (map fst rows).
+Definition keys_no_pipe {A} (rows : list (bytes * A)) : bool :=
+  forallb (fun k => negb (mem c_pipe k)) (map fst rows).
+
+Section KeysetProofs.
+  Variable le : bytes -> bytes -> bool.
+  Hypothesis le_refl : forall a, le a a = true.
+  Hypothesis le_total : forall a b, le a b = true \/ le b a = true.
+  Hypothesis le_antisym : forall a b, le a b = true -> le b a = true -> a = b.
+  Hypothesis le_trans : forall a b c, le a b = true -> le b c = true -> le a c = true.
+  Context {A : Type}.
+  Variable rows : list (bytes * A).
+  Hypothesis Hnodup : nodupb (map fst rows) = true.
+  Hypothesis Hnonempty : keys_nonempty rows = true.
+
+  Let t := isort le rows.
+
+  Lemma keyat_in k : (k < length t)%nat -> In (keyat t k) (map fst rows).
+  Proof.
+    intro Hk. unfold keyat. destruct (nth_error t k) as [r|] eqn:E.
+    - apply nth_error_In in E. apply (Permutation_in _ (isort_perm le rows)) in E.
+      apply in_map. exact E.
+    - apply nth_error_None in E. lia.
+  Qed.
+
+  Lemma keyat_nonempty k : (k < length t)%nat -> keyat t k <> [].
+  Proof.
+    intros Hk. pose proof (keyat_in k Hk) as Hin. unfold keys_nonempty in Hnonempty.
+    rewrite forallb_forall in Hnonempty. specialize (Hnonempty _ Hin).
+    destruct (keyat t k); [discriminate|discriminate].
+  Qed.
+
+  Definition tk_key (suffix : bytes) (k : nat) : bytes :=
+    match k with O => [] | _ => keyat t k ++ suffix end.
+
+  Lemma page_keyset_at (size : N) k from : size <> 0 ->
+    (k = 0%nat /\ from = [] \/ (k < length t)%nat /\ from = keyat t k) ->
+    page_keyset le rows size from =
+      if (k + N.to_nat size <? length t)%nat
+      then Page (firstn (N.to_nat size) (skipn k (map snd t))) (keyat t (k + N.to_nat size))
+      else Page (skipn k (map snd t)) [].
+  Proof.
+    intros Hs Hk. unfold page_keyset. fold t.
+    assert (Hm : (match from with [] => t | _ => filter (fun r => le from (fst r)) t end) = skipn k t).
+    { destruct Hk as [[-> ->]|[Hk ->]]; [reflexivity|].
+      pose proof (keyat_nonempty k Hk) as Hne.
+      destruct (keyat t k) as [|c r0] eqn:Ek; [contradiction|]. rewrite <- Ek.
+      unfold keyat in *. destruct (nth_error t k) as [r|] eqn:En; [|discriminate].
+      apply (filter_ge_skipn le le_refl le_antisym fst t).
+      - apply isort_sorted; assumption.
+      - apply isort_nodup, nodupb_NoDup. exact Hnodup.
+      - exact En. }
+    rewrite Hm. rewrite (keyset_tail (skipn k t) size Hs).
+    rewrite skipn_length.
+    replace (N.to_nat size <? length t - k)%nat with (k + N.to_nat size <? length t)%nat
+      by (destruct (k + N.to_nat size <? length t)%nat eqn:E1;
+          destruct (N.to_nat size <? length t - k)%nat eqn:E2; try reflexivity;
+          [apply Nat.ltb_lt in E1; apply Nat.ltb_ge in E2; lia
+          |apply Nat.ltb_ge in E1; apply Nat.ltb_lt in E2; lia]).
+    destruct (k + N.to_nat size <? length t)%nat.
+    - f_equal.
+      + rewrite skipn_map, firstn_map. reflexivity.
+      + unfold keyat. rewrite nth_error_skipn. reflexivity.
+    - rewrite skipn_map. reflexivity.
+  Qed.
+
+  (* raw tokens: ListStores / ReadAuthorizationModels on sqlite *)
+  Lemma raw_keyset_step ps k : (k < length t \/ k = 0)%nat ->
+    raw_cmd (page_keyset le rows) ps (tk_key [] k) =
+      if (k + N.to_nat (page_size_opt ps) <? length (map snd t))%nat
+      then Page (firstn (N.to_nat (page_size_opt ps)) (skipn k (map snd t)))
+                (tk_key [] (k + N.to_nat (page_size_opt ps)))
+      else Page (skipn k (map snd t)) [].
+  Proof.
+    intro Hk. pose proof (page_size_opt_pos ps) as Hpos. unfold raw_cmd.
+    assert (Hne : page_size_opt ps <> 0) by lia.
+    assert (Hcase : k = 0%nat /\ tk_key [] k = [] \/ (k < length t)%nat /\ tk_key [] k = keyat t k).
+    { destruct k as [|k]; [left; split; reflexivity|].
+      right. split; [lia|]. unfold tk_key. rewrite app_nil_r. reflexivity. }
+    rewrite (page_keyset_at (page_size_opt ps) k _ Hne Hcase).
+    rewrite map_length.
+    destruct (k + N.to_nat (page_size_opt ps) <? length t)%nat; [|reflexivity].
+    f_equal. unfold tk_key. destruct (k + N.to_nat (page_size_opt ps))%nat eqn:E; [lia|].
+    rewrite app_nil_r. reflexivity.
+  Qed.
+
+  Lemma tk_key_nonempty suffix k : (0 < k < length t)%nat -> tk_key suffix k <> [].
+  Proof.
+    intros [H0 Hk]. destruct k; [lia|]. unfold tk_key.
+    pose proof (keyat_nonempty (S k) Hk) as Hne. destruct (keyat t (S k)); [contradiction|discriminate].
+  Qed.
+
+  Theorem paging_exact_raw_keyset ps :
+    exists pages, follow (S (length rows)) (raw_cmd (page_keyset le rows) ps) [] = (pages, EndMarker)
+                  /\ pages_items pages = map snd (isort le rows)
+                  /\ Forall (fun p => (length (fst p) <= N.to_nat (page_size_opt ps))%nat) pages.
+  Proof.
+    (* the generic scheme wants non-empty tokens for every k > 0; tokens beyond the table are never
+       issued, so they are patched to a dummy non-empty value there *)
+    set (tk := fun k => if (k <? length t)%nat then tk_key [] k
+                        else match k with O => [] | _ => [0] end).
+    assert (Htk : forall k, (0 < k)%nat -> tk k <> []).
+    { intros k Hk. unfold tk. destruct (k <? length t)%nat eqn:E.
+      - apply Nat.ltb_lt in E. apply tk_key_nonempty. lia.
+      - destruct k; [lia|discriminate]. }
+    assert (Htk_in : forall k, (k < length t \/ k = 0)%nat -> tk k = tk_key [] k).
+    { intros k [Hk| ->]; unfold tk.
+      - apply Nat.ltb_lt in Hk. rewrite Hk. reflexivity.
+      - destruct (0 <? length t)%nat; reflexivity. }
+    destruct (follow_generic (map snd t) (N.to_nat (page_size_opt ps))
+                (raw_cmd (page_keyset le rows) ps) tk (page_size_opt_pos ps) Htk)
+      with (fuel := S (length rows)) (k := O) as (pages & Hf & Hi & Hall).
+    - intros k Hk. rewrite map_length in Hk.
+      rewrite (Htk_in k Hk). rewrite raw_keyset_step by exact Hk. rewrite map_length.
+      destruct (k + N.to_nat (page_size_opt ps) <? length t)%nat eqn:E; [|reflexivity].
+      rewrite Htk_in; [reflexivity|]. left. apply Nat.ltb_lt. exact E.
+    - right. reflexivity.
+    - rewrite map_length. unfold t. rewrite isort_length. lia.
+    - exists pages. split; [|split; [exact Hi|exact Hall]].
+      rewrite Htk_in in Hf by (right; reflexivity). exact Hf.
+  Qed.
+
+  (* "<key>|" tokens: Read on sqlite *)
+  Hypothesis Hnopipe : keys_no_pipe rows = true.
+
+  Lemma keyat_no_pipe k : (k < length t)%nat -> mem c_pipe (keyat t k) = false.
+  Proof.
+    intros Hk. pose proof (keyat_in k Hk) as Hin. unfold keys_no_pipe in Hnopipe.
+    rewrite forallb_forall in Hnopipe. specialize (Hnopipe _ Hin).
+    apply negb_true_iff in Hnopipe. exact Hnopipe.
+  Qed.
+
+  Lemma read_keyset_step ps k : (k < length t \/ k = 0)%nat ->
+    read_cmd (page_keyset le rows) ps (tk_key [c_pipe] k) =
+      if (k + N.to_nat (page_size_opt ps) <? length (map snd t))%nat
+      then Page (firstn (N.to_nat (page_size_opt ps)) (skipn k (map snd t)))
+                (tk_key [c_pipe] (k + N.to_nat (page_size_opt ps)))
+      else Page (skipn k (map snd t)) [].
+  Proof.
+    intro Hk. pose proof (page_size_opt_pos ps) as Hpos.
+    assert (Hne : page_size_opt ps <> 0) by lia.
+    assert (Hst : forall from, (k = 0%nat /\ from = [] \/ (k < length t)%nat /\ from = keyat t k) ->
+              match page_keyset le rows (page_size_opt ps) from with
+              | Page items [] => Page items []
+              | Page items c => match serialize c [] with Some tok0 => Page items tok0 | None => Rejected EInternal end
+              | o => o
+              end =
+              if (k + N.to_nat (page_size_opt ps) <? length (map snd t))%nat
+              then Page (firstn (N.to_nat (page_size_opt ps)) (skipn k (map snd t)))
+                        (tk_key [c_pipe] (k + N.to_nat (page_size_opt ps)))
+              else Page (skipn k (map snd t)) []).
+    { intros from Hcase. rewrite (page_keyset_at (page_size_opt ps) k from Hne Hcase). rewrite map_length.
+      destruct (k + N.to_nat (page_size_opt ps) <? length t)%nat eqn:E; [|reflexivity].
+      apply Nat.ltb_lt in E. pose proof (keyat_nonempty _ E) as Hk2.
+      unfold tk_key. destruct (k + N.to_nat (page_size_opt ps))%nat eqn:En; [lia|].
+      destruct (keyat t (S n)) as [|c r]; [contradiction|]. reflexivity. }
+    destruct k as [|k].
+    - cbn [tk_key]. unfold read_cmd. apply Hst. left. split; reflexivity.
+    - assert (Hk' : (S k < length t)%nat) by lia.
+      pose proof (keyat_nonempty _ Hk') as Hk2. pose proof (keyat_no_pipe _ Hk') as Hk3.
+      unfold tk_key, read_cmd. pose proof (deserialize_serialize _ [] Hk2 Hk3) as Hd.
+      destruct (keyat t (S k) ++ [c_pipe]) as [|c r] eqn:Et.
+      + apply app_eq_nil in Et. destruct Et; discriminate.
+      + rewrite Hd. apply Hst. right. split; [exact Hk'|reflexivity].
+  Qed.
+
+  Theorem paging_exact_read_keyset ps :
+    exists pages, follow (S (length rows)) (read_cmd (page_keyset le rows) ps) [] = (pages, EndMarker)
+                  /\ pages_items pages = map snd (isort le rows)
+                  /\ Forall (fun p => (length (fst p) <= N.to_nat (page_size_opt ps))%nat) pages.
+  Proof.
+    set (tk := fun k => if (k <? length t)%nat then tk_key [c_pipe] k
+                        else match k with O => [] | _ => [0] end).
+    assert (Htk : forall k, (0 < k)%nat -> tk k <> []).
+    { intros k Hk. unfold tk. destruct (k <? length t)%nat eqn:E.
+      - apply Nat.ltb_lt in E. apply tk_key_nonempty. lia.
+      - destruct k; [lia|discriminate]. }
+    assert (Htk_in : forall k, (k < length t \/ k = 0)%nat -> tk k = tk_key [c_pipe] k).
+    { intros k [Hk| ->]; unfold tk.
+      - apply Nat.ltb_lt in Hk. rewrite Hk. reflexivity.
+      - destruct (0 <? length t)%nat; reflexivity. }
+    destruct (follow_generic (map snd t) (N.to_nat (page_size_opt ps))
+                (read_cmd (page_keyset le rows) ps) tk (page_size_opt_pos ps) Htk)
+      with (fuel := S (length rows)) (k := O) as (pages & Hf & Hi & Hall).
+    - intros k Hk. rewrite map_length in Hk.
+      rewrite (Htk_in k Hk). rewrite read_keyset_step by exact Hk. rewrite map_length.
+      destruct (k + N.to_nat (page_size_opt ps) <? length t)%nat eqn:E; [|reflexivity].
+      rewrite Htk_in; [reflexivity|]. left. apply Nat.ltb_lt. exact E.
+    - right. reflexivity.
+    - rewrite map_length. unfold t. rewrite isort_length. lia.
+    - exists pages. split; [|split; [exact Hi|exact Hall]].
+      rewrite Htk_in in Hf by (right; reflexivity). exact Hf.
+  Qed.
+End KeysetProofs.
+
+(* ------------------------------------------------------------------------------------------ *)
+(* (3) sorted + clamped offsets: ListStores / ReadAuthorizationModels on the memory backend *)
+
+Section ClampProofs.
+  Variable le : bytes -> bytes -> bool.
+  Context {A : Type}.
+  Variable rows : list (bytes * A).
+  Let t := isort le rows.
+
+  Lemma page_clamp_at (size : N) k from :
+    parse_from from = Some (Z.of_nat k) -> (k <= length t)%nat -> size <> 0 ->
+    page_clamp le rows size from =
+      if (k + N.to_nat size <? length t)%nat
+      then Page (firstn (N.to_nat size) (skipn k (map snd t))) (itoa (Z.of_nat (k + N.to_nat size)))
+      else Page (skipn k (map snd t)) [].
+  Proof.
+    intros Hp Hk Hs. unfold page_clamp. rewrite Hp. fold t. cbv zeta.
+    replace (Z.to_nat (Z.max 0 (Z.min (Z.of_nat k) (Z.of_nat (length t))))) with k by lia.
+    destruct (k + N.to_nat size <? length t)%nat eqn:E.
+    - apply Nat.ltb_lt in E. rewrite Nat.min_r by lia.
+      replace (k + N.to_nat size - k)%nat with (N.to_nat size) by lia.
+      assert (E2 : (k + N.to_nat size =? length t)%nat = false) by (apply Nat.eqb_neq; lia).
+      rewrite E2. rewrite skipn_map, firstn_map. reflexivity.
+    - apply Nat.ltb_ge in E. rewrite Nat.min_l by lia. rewrite Nat.eqb_refl.
+      rewrite firstn_all2 by (rewrite skipn_length; lia). rewrite skipn_map. reflexivity.
+  Qed.
+
+  Lemma raw_clamp_step ps k :
+    int64_fits (length rows) (page_size_opt ps) = true -> (k <= length t)%nat ->
+    raw_cmd (page_clamp le rows) ps (tk_offset [] k) =
+      if (k + N.to_nat (page_size_opt ps) <? length (map snd t))%nat
+      then Page (firstn (N.to_nat (page_size_opt ps)) (skipn k (map snd t)))
+                (tk_offset [] (k + N.to_nat (page_size_opt ps)))
+      else Page (skipn k (map snd t)) [].
+  Proof.
+    intros Hfit Hk. pose proof (page_size_opt_pos ps) as Hpos.
+    assert (Hne : page_size_opt ps <> 0) by lia.
+    assert (Hlen : length t = length rows).
+    { unfold t. apply Permutation_length. clear. induction rows as [|r l IH]; simpl; [reflexivity|].
+      transitivity (r :: isort le l); [|constructor; exact IH].
+      clear IH. generalize (isort le l). intro l0. induction l0 as [|x l0 IH]; simpl; [reflexivity|].
+      destruct (le (fst r) (fst x)); [reflexivity|]. rewrite IH. apply perm_swap. }
+    assert (Hlt : (Z.of_nat k < 9223372036854775808)%Z).
+    { unfold int64_fits in Hfit. apply Z.ltb_lt in Hfit. lia. }
+    unfold raw_cmd. rewrite map_length.
+    rewrite (page_clamp_at (page_size_opt ps) k); [| |exact Hk|exact Hne].
+    - destruct (k + N.to_nat (page_size_opt ps) <? length t)%nat; [|reflexivity].
+      f_equal. unfold tk_offset. destruct (k + N.to_nat (page_size_opt ps))%nat eqn:E; [lia|].
+      rewrite app_nil_r. reflexivity.
+    - destruct k as [|k]; [reflexivity|]. unfold tk_offset. rewrite app_nil_r.
+      apply parse_from_itoa. exact Hlt.
+  Qed.
+
+  Theorem paging_exact_raw_clamp ps :
+    int64_fits (length rows) (page_size_opt ps) = true ->
+    exists pages, follow (S (length rows)) (raw_cmd (page_clamp le rows) ps) [] = (pages, EndMarker)
+                  /\ pages_items pages = map snd (isort le rows)
+                  /\ Forall (fun p => (length (fst p) <= N.to_nat (page_size_opt ps))%nat) pages.
+  Proof.
+    intro Hfit.
+    assert (Hlen : length t = length rows).
+    { unfold t. apply Permutation_length. clear. induction rows as [|r l IH]; simpl; [reflexivity|].
+      transitivity (r :: isort le l); [|constructor; exact IH].
+      clear IH. generalize (isort le l). intro l0. induction l0 as [|x l0 IH]; simpl; [reflexivity|].
+      destruct (le (fst r) (fst x)); [reflexivity|]. rewrite IH. apply perm_swap. }
+    destruct (follow_generic (map snd t) (N.to_nat (page_size_opt ps))
+                (raw_cmd (page_clamp le rows) ps) (tk_offset []) (page_size_opt_pos ps)
+                (tk_offset_nonempty [])) with (fuel := S (length rows)) (k := O)
+      as (pages & Hf & Hi & Hall).
+    - intros k Hk. rewrite map_length in Hk. apply raw_clamp_step; [exact Hfit|lia].
+    - right. reflexivity.
+    - rewrite map_length, Hlen. lia.
+    - exists pages. split; [exact Hf|]. split; [exact Hi|exact Hall].
+  Qed.
+End ClampProofs.
+
+(* ------------------------------------------------------------------------------------------ *)
+(* (4) ReadChanges *)
+
+Lemma blt_ble_trans a b c : blt a b = true -> ble b c = true -> blt a c = true.
+Proof.
+  unfold blt. intros H1 H2. apply negb_true_iff in H1. apply negb_true_iff.
+  destruct (ble c a) eqn:E; [|reflexivity].
+  rewrite (ble_trans _ _ _ H2 E) in H1. discriminate.
+Qed.
+
+Lemma blt_ble a b : blt a b = true -> ble a b = true.
+Proof.
+  unfold blt. intro H. apply negb_true_iff in H. destruct (ble_total a b); congruence.
+Qed.
+
+Lemma strictly_sorted_rows {X} (kf : X -> bytes) (t : list X) :
+  strictly_sorted (map kf t) = true ->
+  StronglySorted (R ble kf) t /\ NoDup (map kf t)
+  /\ Forall (fun x => match t with [] => True | a :: _ => ble (kf a) (kf x) = true end) t.
+Proof.
+  induction t as [|a t IH]; intro H.
+  - repeat split; constructor.
+  - cbn [map strictly_sorted] in H. destruct t as [|b t'].
+    + repeat split; repeat constructor; try apply ble_refl. intros [].
+    + cbn [map] in H. apply andb_true_iff in H as [Hab Hrest].
+      destruct (IH Hrest) as (Hs & Hn & Hhead).
+      assert (Hall : Forall (fun x => blt (kf a) (kf x) = true) (b :: t')).
+      { rewrite Forall_forall in *. intros x Hx. eapply blt_ble_trans; [exact Hab|]. apply Hhead. exact Hx. }
+      split; [|split].
+      * constructor; [exact Hs|]. rewrite Forall_forall in *. intros x Hx. apply blt_ble. apply Hall. exact Hx.
+      * cbn [map]. constructor; [|exact Hn]. intro Hin. change (In (kf a) (map kf (b :: t'))) in Hin.
+        apply in_map_iff in Hin as (x & Hx1 & Hx2). rewrite Forall_forall in Hall.
+        specialize (Hall x Hx2). rewrite Hx1 in Hall. unfold blt in Hall. rewrite ble_refl in Hall. discriminate.
+      * constructor; [apply ble_refl|]. rewrite Forall_forall in *. intros x Hx. apply blt_ble. apply Hall. exact Hx.
+Qed.
+
+Lemma last_key_keyat {A} (l : list (bytes * A)) : forall acc,
+  fold_left (fun (_ : bytes) r => fst r) l acc =
+  match l with [] => acc | _ => keyat l (length l - 1) end.
+Proof.
+  induction l as [|x l IH]; intro acc; [reflexivity|].
+  cbn [fold_left]. rewrite IH. destruct l as [|y l']; [reflexivity|].
+  unfold keyat. cbn [length]. replace (S (S (length l')) - 1)%nat with (S (length l')) by lia.
+  replace (S (length l') - 1)%nat with (length l') by lia. reflexivity.
+Qed.
+
+Lemma keyat_window {A} (t : list (bytes * A)) k s : (k < length t)%nat -> (0 < s)%nat ->
+  last_key (firstn s (skipn k t)) = keyat t (Nat.min (k + s) (length t) - 1).
+Proof.
+  intros Hk Hs. unfold last_key. rewrite last_key_keyat.
+  assert (Hne : firstn s (skipn k t) <> []).
+  { intro E. apply (f_equal (@length _)) in E. rewrite firstn_length, skipn_length in E. simpl in E. lia. }
+  assert (Hgen : forall w : list (bytes * A), w <> [] ->
+            match w with [] => [] | _ => keyat w (length w - 1) end = keyat w (length w - 1))
+    by (intros [|? ?] H; [contradiction|reflexivity]).
+  rewrite Hgen by exact Hne. rewrite firstn_length, skipn_length.
+  unfold keyat. rewrite nth_error_firstn by lia. rewrite nth_error_skipn.
+  replace (k + (Init.Nat.min s (length t - k) - 1))%nat with (Nat.min (k + s) (length t) - 1)%nat by lia.
+  reflexivity.
+Qed.
+
+Section ChangesProofs.
+  Context {A : Type}.
+  Variable norm : bytes -> option bytes.
+  Variable sorted : bool.
+  Variable rows : list (bytes * A).
+  Variable ty : bytes.
+  Let kf := fun r : bytes * A => norm_key norm (fst r).
+  Hypothesis Hsorted : strictly_sorted (map kf rows) = true.
+  Hypothesis Hparse : forallb (fun r => match norm (fst r) with Some _ => true | None => false end) rows = true.
+  Hypothesis Hnonempty : keys_nonempty rows = true.
+  Hypothesis Hnopipe : keys_no_pipe rows = true.
+  Hypothesis Htable : (if sorted then isort ble rows else rows) = rows.
+
+  Definition tk_change (k : nat) : bytes :=
+    match k with O => [] | S j => keyat rows j ++ c_pipe :: ty end.
+
+  Lemma row_at k : (k < length rows)%nat -> exists r, nth_error rows k = Some r /\ keyat rows k = fst r.
+  Proof.
+    intro Hk. unfold keyat. destruct (nth_error rows k) as [r|] eqn:E.
+    - exists r. split; reflexivity.
+    - apply nth_error_None in E. lia.
+  Qed.
+
+  Lemma change_key_ok k : (k < length rows)%nat ->
+    keyat rows k <> [] /\ mem c_pipe (keyat rows k) = false.
+  Proof.
+    intro Hk. destruct (row_at k Hk) as (r & Hn & ->). apply nth_error_In in Hn.
+    assert (Hin : In (fst r) (map fst rows)) by (apply in_map; exact Hn).
+    unfold keys_nonempty in Hnonempty. unfold keys_no_pipe in Hnopipe.
+    rewrite forallb_forall in Hnonempty, Hnopipe.
+    specialize (Hnonempty _ Hin). specialize (Hnopipe _ Hin). apply negb_true_iff in Hnopipe.
+    split; [|exact Hnopipe]. destruct (fst r); discriminate.
+  Qed.
+
+  Lemma changes_page_at (size : N) k from : size <> 0 -> (k <= length rows)%nat ->
+    (k = 0%nat /\ from = [] \/ exists j, k = S j /\ from = keyat rows j) ->
+    changes_page norm sorted rows size from =
+      if (k <? length rows)%nat
+      then CPage (firstn (N.to_nat size) (skipn k (map snd rows)))
+                 (keyat rows (Nat.min (k + N.to_nat size) (length rows) - 1))
+      else CNotFound.
+  Proof.
+    intros Hs Hk Hcase. unfold changes_page. rewrite Htable.
+    assert (Hm : exists bd, (match from with
+                             | [] => Some None
+                             | _ => match norm from with Some b => Some (Some b) | None => None end
+                             end) = Some bd
+                            /\ match bd with
+                               | None => rows
+                               | Some b => filter (fun r => blt b (norm_key norm (fst r))) rows
+                               end = skipn k rows).
+    { destruct Hcase as [[-> ->]|(j & -> & ->)].
+      - exists None. split; reflexivity.
+      - assert (Hj : (j < length rows)%nat) by lia.
+        destruct (change_key_ok j Hj) as [Hne _]. destruct (row_at j Hj) as (r & Hn & Hkey).
+        assert (Hnr : exists b, norm (fst r) = Some b).
+        { rewrite forallb_forall in Hparse. specialize (Hparse r (nth_error_In _ _ Hn)).
+          destruct (norm (fst r)) as [b|]; [exists b; reflexivity|discriminate]. }
+        destruct Hnr as (b & Hb). exists (Some b). rewrite Hkey in *. split.
+        + destruct (fst r); [contradiction|]. rewrite Hb. reflexivity.
+        + destruct (strictly_sorted_rows kf rows Hsorted) as (Hss & Hnd & _).
+          assert (Eb : b = kf r) by (unfold kf, norm_key; rewrite Hb; reflexivity).
+          rewrite Eb. apply (filter_gt_skipn ble ble_refl ble_antisym kf rows Hss Hnd j r Hn). }
+    destruct Hm as (bd & Hb1 & Hb2). rewrite Hb1, Hb2.
+    destruct (k <? length rows)%nat eqn:E.
+    - apply Nat.ltb_lt in E.
+      assert (Hpos : (0 < N.to_nat size)%nat) by lia.
+      pose proof (keyat_window rows k (N.to_nat size) E Hpos) as Hw.
+      destruct (firstn (N.to_nat size) (skipn k rows)) as [|x res] eqn:Ef.
+      + apply (f_equal (@length _)) in Ef. rewrite firstn_length, skipn_length in Ef. simpl in Ef. lia.
+      + rewrite <- Ef, Hw. rewrite skipn_map, firstn_map. reflexivity.
+    - apply Nat.ltb_ge in E. rewrite skipn_all2 by exact E. rewrite firstn_nil. reflexivity.
+  Qed.
+
+  Lemma changes_cmd_step ps k : (k <= length (map snd rows))%nat ->
+    changes_cmd (changes_page norm sorted rows) ps ty (tk_change k) =
+      if (k <? length (map snd rows))%nat
+      then Page (firstn (N.to_nat (page_size_opt ps)) (skipn k (map snd rows)))
+                (tk_change (Nat.min (k + N.to_nat (page_size_opt ps)) (length (map snd rows))))
+      else Page [] (tk_change k).
+  Proof.
+    rewrite map_length. intro Hk. pose proof (page_size_opt_pos ps) as Hpos.
+    assert (Hne : page_size_opt ps <> 0) by lia.
+    assert (Hst : forall from tok, (k = 0%nat /\ from = [] \/ exists j, k = S j /\ from = keyat rows j) ->
+              tok = tk_change k ->
+              match changes_page norm sorted rows (page_size_opt ps) from with
+              | CNotFound => Page [] tok
+              | CRejected e => Rejected e
+              | CPage items lastk => match serialize lastk ty with
+                                     | Some t0 => Page items t0
+                                     | None => Page items []
+                                     end
+              end =
+              if (k <? length rows)%nat
+              then Page (firstn (N.to_nat (page_size_opt ps)) (skipn k (map snd rows)))
+                        (tk_change (Nat.min (k + N.to_nat (page_size_opt ps)) (length rows)))
+              else Page [] (tk_change k)).
+    { intros from tok Hcase ->. rewrite (changes_page_at (page_size_opt ps) k from Hne Hk Hcase).
+      destruct (k <? length rows)%nat eqn:E; [|reflexivity].
+      apply Nat.ltb_lt in E.
+      set (i := (Nat.min (k + N.to_nat (page_size_opt ps)) (length rows) - 1)%nat).
+      assert (Hi : (i < length rows)%nat) by (unfold i; lia).
+      destruct (change_key_ok i Hi) as [Hne2 _]. rewrite (serialize_some _ ty Hne2).
+      f_equal. unfold tk_change.
+      destruct (Nat.min (k + N.to_nat (page_size_opt ps)) (length rows)) as [|m] eqn:Em; [lia|].
+      unfold i. rewrite Em. replace (S m - 1)%nat with m by lia. reflexivity. }
+    destruct k as [|j].
+    - cbn [tk_change]. unfold changes_cmd. apply Hst; [left; split; reflexivity|reflexivity].
+    - assert (Hj : (j < length rows)%nat) by lia.
+      destruct (change_key_ok j Hj) as [Hk2 Hk3].
+      pose proof (deserialize_serialize _ ty Hk2 Hk3) as Hd.
+      unfold changes_cmd. cbn [tk_change] in *.
+      destruct (keyat rows j ++ c_pipe :: ty) as [|c r] eqn:Et.
+      + apply app_eq_nil in Et. destruct Et; discriminate.
+      + rewrite Hd, beqb_refl. apply Hst; [right; exists j; split; reflexivity|reflexivity].
+  Qed.
+
+  Theorem paging_exact_changes_generic ps :
+    exists pages, follow_changes (S (length rows)) (changes_cmd (changes_page norm sorted rows) ps ty) []
+                  = (pages, EndMarker)
+                  /\ pages_items pages = map snd rows
+                  /\ Forall (fun p => (length (fst p) <= N.to_nat (page_size_opt ps))%nat) pages.
+  Proof.
+    destruct (follow_changes_generic (map snd rows) (N.to_nat (page_size_opt ps))
+                (changes_cmd (changes_page norm sorted rows) ps ty) tk_change (page_size_opt_pos ps))
+      with (fuel := S (length rows)) (k := O) as (pages & Hf & Hi & Hall).
+    - intros k Hk. apply changes_cmd_step. exact Hk.
+    - lia.
+    - rewrite map_length. lia.
+    - exists pages. split; [exact Hf|]. split; [exact Hi|exact Hall].
+  Qed.
+End ChangesProofs.
